@@ -17,6 +17,7 @@ IntV(v)    == [k |-> "int", id |-> "", n |-> "", v |-> v]
 FnV(n)     == [k |-> "fn",  id |-> "", n |-> n,  v |-> 0]
 ModV(m)    == [k |-> "mod", id |-> m,  n |-> "", v |-> 0]
 SymV(m, n) == [k |-> "sym", id |-> m,  n |-> n,  v |-> 0]
+ObjV(v)    == [k |-> "obj", id |-> "", n |-> "", v |-> v]    \* round 3: an object made by `def class` (member m = v)
 NoBind     == [x \in {} |-> IntV(0)]          \* the empty scope
 
 Range(s) == {s[i] : i \in DOMAIN s}
@@ -102,6 +103,42 @@ FS10 ==
   ("cyca"   :> File(<<SDef("cyca_x"), SReq("cycb", "plain"), SDef("cyca_y")>>, {NSt("cyca")})) @@
   ("cycb"   :> File(<<SReq("cyca", "plain"), SDef("cycb_y")>>, {NSt("cycb")}))
 
+(* ---- Round 3 (C10) begin: further module files ---------------------------
+   (a) Module files whose load fails with something that is not an error of
+       the language: a file that cannot be read as text at all (Unreadable:
+       id -> how: "bytes" = not UTF-8, "dir" = a directory of that name) and
+       a file whose top level exhausts the host's stack (statement `deep`:
+       def m_f(n) m_f(n + 1); m_f(0)) or does not end and is interrupted by
+       the user (statement `spin`: while TRUE do 1; end - the host delivers
+       KeyboardInterrupt, as Ctrl-C does in the REPL).  wrapu / wrapd / wraps
+       are sound modules that require one of them between two definitions, so
+       that the ids of the modules that were loading it are on the stack when
+       it fails.
+   (b) A second module directory (FS10B) for configurations in which the
+       interpreters have different module paths: it holds a module `good`
+       with the same public names but another value (def8: def n = 8), a
+       module `solo` that only this directory has, and no `good2`.          *)
+SDef8(n)         == [op |-> "def8", n |-> n,  id |-> "", form |-> ""]
+SDeep            == [op |-> "deep", n |-> "", id |-> "", form |-> ""]
+SSpin            == [op |-> "spin", n |-> "", id |-> "", form |-> ""]
+DefOps           == {"def", "def8"}        \* statements that define one public int
+
+Unreadable == ("undec" :> "bytes") @@ ("isdir" :> "dir")
+FS10R3 ==
+  ("undec"   :> File(<< >>, {})) @@
+  ("isdir"   :> File(<< >>, {})) @@
+  ("deeprec" :> File(<<SDef("deeprec_x"), SDeep, SDef("deeprec_y")>>, {NSt("deeprec")})) @@
+  ("wrapu"   :> File(<<SDef("wrapu_x"), SReq("undec", "plain"), SDef("wrapu_y")>>, {NSt("wrapu")})) @@
+  ("wrapd"   :> File(<<SDef("wrapd_x"), SReq("deeprec", "plain"), SDef("wrapd_y")>>, {NSt("wrapd")})) @@
+  ("spin"    :> File(<<SDef("spin_x"), SSpin, SDef("spin_y")>>, {NSt("spin")})) @@
+  ("wraps"   :> File(<<SDef("wraps_x"), SReq("spin", "plain"), SDef("wraps_y")>>, {NSt("wraps")}))
+C10Files == FS10 @@ FS10R3
+
+FS10B ==
+  ("good"   :> File(<<SDef8("good_a"), SDef("_good_p")>>, {NSt("good"), "_good_p"})) @@
+  ("solo"   :> File(<<SDef("solo_a")>>, {NSt("solo")}))
+(* ---- Round 3 (C10) end --------------------------------------------------- *)
+
 \* Bundled modules (src/ckl/modules/*.ckl) are found whatever the case of the
 \* name used (nodes.py: "modules/" + basename.lower()); the start-up code
 \* requires Sys (modules/base.ckl), so `sys` is loaded in every interpreter
@@ -135,7 +172,7 @@ FSOf(gen, Ids) ==
 IsPrivate(fs, n) == \E m \in DOMAIN fs : n \in fs[m].priv
 
 \* what kind of thing the symbol n of module m is (for rendering observations)
-SymStmt(fs, m, n) == CHOOSE i \in DOMAIN fs[m].body : fs[m].body[i].n = n /\ fs[m].body[i].op \in {"def", "rdr"}
+SymStmt(fs, m, n) == CHOOSE i \in DOMAIN fs[m].body : fs[m].body[i].n = n /\ fs[m].body[i].op \in {"def", "rdr", "def8"}
 SymKind(fs, m, n) ==
   CASE n = NSt(m)   -> "st"
     [] n = NBump(m) -> "bump"
